@@ -30,7 +30,8 @@ func c19WithColor(c string) spinner.Option { return nil }
 func VerifC19Formats(format, shape int) {
 	vInstallStubs()
 	vAllowOther = false
-	vOutLen = 1
+	vOutLen, vErrLen = 1, 1
+	defer func() { vErrLen = 0 }()
 	rt.Redirect("github.com/briandowns/spinner.New", c19SpinnerNew)
 	rt.Redirect("github.com/briandowns/spinner.WithColor", c19WithColor)
 	rt.Redirect("(*github.com/briandowns/spinner.Spinner).Start", c19SpinnerNop)
@@ -83,6 +84,10 @@ func VerifC19Formats(format, shape int) {
 		if c.Failed && !t.AllowFailure {
 			failed, cmdFailed, st = true, true, c.Status
 		}
+		// what the task's command printed is part of its recorded result: stdout and stderr, kept apart
+		rt.Assert(t.Log.Stdout.String() == c.Out, "C19.recorded-stdout-independent-of-format")
+		rt.Assert(t.Log.Stderr.String() == c.Err, "C19.recorded-stderr-independent-of-format")
+		rt.Assert(t.Output() == c.Out, "C19.recorded-output-independent-of-format")
 	}
 	rt.Assert(len(vCalls) == i, "C19.same-commands-run-under-every-format")
 	rt.Assert((runErr != nil) == failed, "C19.result-error-independent-of-format")
